@@ -26,6 +26,7 @@ import (
 	"fmt"
 	"math"
 	"os"
+	"runtime/debug"
 	"runtime/pprof"
 	"sort"
 	"strings"
@@ -405,6 +406,9 @@ func bodyShape(t []uint16) string {
 	case isInt && math.Abs(v) > 1<<53:
 		return "decimal integer >2^53"
 	case isInt && v == 0 && strings.HasPrefix(s, "-"):
+		if s != "-0" {
+			return "-0 written with several zeros"
+		}
 		return "-0"
 	case isInt:
 		return "decimal integer"
@@ -1012,6 +1016,16 @@ func (ex *explorer) leafValues() []*value {
 	return res
 }
 
+// stringRelevant: unary operations whose operand conversion is a string-to-number conversion worth applying to every
+// string produced at depth 1 (concatenations) even in the quick tier.
+func stringRelevant(op *Op) bool {
+	switch op.Name {
+	case "Number(%s)", "parseInt(%s)", "parseFloat(%s)", "(+%s)", "(-%s)", "(~%s)", "Math.abs(%s)", "isNaN(%s)", "(t=new Float64Array(1), t[0]=%s, t[0])", "(t=new Int32Array(1), t[0]=%s, t[0])", "(var x=%s; ++x)":
+		return true
+	}
+	return false
+}
+
 func filter(vs []*value, f func(*value) bool) []*value {
 	var res []*value
 	for _, v := range vs {
@@ -1022,17 +1036,20 @@ func filter(vs []*value, f func(*value) bool) []*value {
 	return res
 }
 
-// representatives keeps the first k values of every class (values are in deterministic first-reached order).
+// representatives keeps the first k values of every coarse class (values are in deterministic first-reached order).
 func representatives(vs []*value, k int) []*value {
 	cnt := map[string]int{}
 	var res []*value
 	for _, v := range vs {
-		c := v.class()
-		if v.m.K == nm.Number {
-			// finer for numbers: exact small values stay distinct classes
-			if a := math.Abs(v.m.N); a <= 2 || a == 0.5 || a == 1.5 {
+		c := v.kindWord() + " " + convClass(v)
+		switch v.m.K {
+		case nm.Number:
+			// exact small values stay distinct classes
+			if a := math.Abs(v.m.N); a == 0 || a == 0.5 || a == 1 || a == 1.5 || a == 2 {
 				c += "=" + nm.ShowNum(v.m.N)
 			}
+		case nm.String:
+			c += fmt.Sprint(" tag", v.key.tag)
 		}
 		if cnt[c] < k {
 			cnt[c]++
@@ -1052,6 +1069,8 @@ func run(r *core.Run) {
 		pprof.StartCPUProfile(f)
 		defer pprof.StopCPUProfile()
 	}
+	debug.SetGCPercent(400)
+	debug.SetMemoryLimit(8 << 30)
 	u := getUniverse()
 	ex := &explorer{r: r, u: u, known: map[rkey]*value{}, fails: map[string]*failRec{}, bounds: map[string]interface{}{}}
 	complete := true
@@ -1073,37 +1092,50 @@ func run(r *core.Run) {
 	runLiterals(ex)
 	runGoKinds(ex)
 
-	// 3. level 1: every unary operation on every leaf; every binary operation on (every leaf x mid pool) in both
-	// positions; the compound-assignment variants (same VM instruction, other reference kinds) on mid x mid
-	mid := filter(leaves, func(v *value) bool { return v.lf.mid })
+	// 3. level 1. unary: every operation on every leaf. binary: scalars (all numbers, booleans, null, undefined) x
+	// scalars in full; every leaf x the small partner pool P (core numbers, one string of every representation and
+	// lexical class, objects) in both positions. The compound-assignment variants (same VM instruction through
+	// other reference kinds): scalars x scalars and P x P.
+	isScalar := func(v *value) bool { return v.lf.kind != "str" && v.lf.kind != "obj" }
+	P := filter(leaves, func(v *value) bool { return v.lf.core })
+	notP := filter(leaves, func(v *value) bool { return !v.lf.core })
+	scalars := filter(leaves, isScalar)
+	scalarsNotP := filter(notP, isScalar)
 	var jobs []job
 	for _, op := range u.ops {
 		switch {
 		case op.Ar == 1:
 			jobs = append(jobs, job{op: op, A: leaves})
 		case op.Fam == "compound":
-			jobs = append(jobs, job{op: op, A: mid, B: mid})
+			jobs = append(jobs, job{op: op, A: scalars, B: scalars}, job{op: op, A: filter(P, func(v *value) bool { return !isScalar(v) }), B: P}, job{op: op, A: filter(P, isScalar), B: filter(P, func(v *value) bool { return !isScalar(v) })})
 		default:
-			notMid := filter(leaves, func(v *value) bool { return !v.lf.mid })
-			jobs = append(jobs, job{op: op, A: leaves, B: mid}, job{op: op, A: mid, B: notMid})
+			jobs = append(jobs, job{op: op, A: leaves, B: P}, job{op: op, A: P, B: notP}, job{op: op, A: scalarsNotP, B: scalarsNotP})
 		}
 	}
 	new1, ok := ex.runJobs(jobs, 1, true, "depth1")
 	new1 = append(consts, new1...)
-	ex.bounds["depth 1"] = fmt.Sprintf("%d operations: unary x all %d leaves; binary x (all leaves x %d mid-pool leaves, both positions); compound-assignment variants x mid x mid (complete=%v); %d new value representations", len(u.ops), len(leaves), len(mid), ok, len(new1))
+	nums1 := filter(new1, func(v *value) bool { return v.m.K == nm.Number })
+	strs1 := filter(new1, func(v *value) bool { return v.m.K == nm.String })
+	ex.bounds["depth 1"] = fmt.Sprintf("%d operations: unary x all %d leaves; binary: %d scalars x scalars in full and all leaves x %d partner-pool leaves in both positions (complete=%v); %d new value representations (%d numbers, %d strings)",
+		len(u.ops), len(leaves), len(scalars), len(P), ok, len(new1), len(nums1), len(strs1))
 	complete = complete && ok
+	if fn := os.Getenv("C05_DUMPVALS"); fn != "" {
+		f, _ := os.Create(fn)
+		for _, v := range new1 {
+			fmt.Fprintf(f, "%d %x %q <- %s\n", v.key.tag, v.key.bits, v.key.s, v.desc())
+		}
+		f.Close()
+	}
 	ex.observe(new1, "depth1")
 
 	// 4. argument positions: pool + every non-canonical number reached so far
 	complete = runArgPositions(ex, leaves, new1) && complete
 
-	// 5. level 2
+	// 5. level 2 (operands of depth 1 are the distinct value representations reached there)
 	if ok {
-		core2 := filter(leaves, func(v *value) bool { return v.lf.core })
-		nums1 := filter(new1, func(v *value) bool { return v.m.K == nm.Number })
-		other1 := filter(new1, func(v *value) bool { return v.m.K != nm.Number })
 		rep1 := representatives(new1, r.Pick(2, 6))
-		partners := core2
+		strRep1, strRep2 := representatives(strs1, 1), representatives(strs1, 2)
+		partners := P
 		if r.Thorough() {
 			partners = leaves
 		}
@@ -1113,39 +1145,48 @@ func run(r *core.Run) {
 				continue
 			}
 			if op.Ar == 1 {
-				jobs = append(jobs, job{op: op, A: new1})
+				if r.Thorough() || stringRelevant(op) {
+					jobs = append(jobs, job{op: op, A: new1})
+				} else {
+					jobs = append(jobs, job{op: op, A: nums1}, job{op: op, A: strRep1})
+				}
 				continue
 			}
-			jobs = append(jobs, job{op: op, A: nums1, B: partners}, job{op: op, A: partners, B: nums1})
-			jobs = append(jobs, job{op: op, A: representatives(other1, 1), B: partners}, job{op: op, A: partners, B: representatives(other1, 1)})
 			if r.Thorough() {
-				jobs = append(jobs, job{op: op, A: nums1, B: nums1})
+				jobs = append(jobs, job{op: op, A: nums1, B: partners}, job{op: op, A: partners, B: nums1})
+				jobs = append(jobs, job{op: op, A: strRep2, B: partners}, job{op: op, A: partners, B: strRep2})
+				jobs = append(jobs, job{op: op, A: nums1, B: rep1}, job{op: op, A: rep1, B: nums1})
 			} else {
-				jobs = append(jobs, job{op: op, A: rep1, B: rep1})
+				jobs = append(jobs, job{op: op, A: rep1, B: partners}, job{op: op, A: partners, B: rep1}, job{op: op, A: rep1, B: rep1})
 			}
 		}
 		new2, ok2 := ex.runJobs(jobs, 2, r.Thorough(), "depth2")
-		desc := fmt.Sprintf("every deep operation (unary: all %d depth-1 values; binary: all %d numeric depth-1 values x %d partner leaves in both positions, string-valued depth-1 results by class representative, and %s x itself)",
-			len(new1), len(nums1), len(partners), map[bool]string{true: "all numeric depth-1 values", false: fmt.Sprintf("%d class representatives of depth-1 values", len(rep1))}[r.Thorough()])
-		ex.bounds["depth 2"] = fmt.Sprintf("%s complete=%v", desc, ok2)
+		if r.Thorough() {
+			ex.bounds["depth 2"] = fmt.Sprintf("every deep operation; unary: all %d depth-1 values; binary: all %d numeric depth-1 values x (all %d leaves and %d class representatives of depth-1 values) in both positions, string-valued depth-1 results by class representative; complete=%v",
+				len(new1), len(nums1), len(partners), len(rep1), ok2)
+		} else {
+			ex.bounds["depth 2"] = fmt.Sprintf("every deep operation; unary: all %d numeric depth-1 values (string-to-number operations: all %d depth-1 values); binary: %d class representatives of depth-1 values x (%d partner-pool leaves and themselves) in both positions; complete=%v",
+				len(nums1), len(new1), len(rep1), len(partners), ok2)
+		}
 		complete = complete && ok2
 		if r.Thorough() && ok2 {
 			ex.observe(new2, "depth2")
 			// 6. level 3 (pruned): class representatives of depth-2 values
 			rep2 := representatives(new2, 3)
+			nums2 := filter(new2, func(v *value) bool { return v.m.K == nm.Number })
 			jobs = jobs[:0]
 			for _, op := range u.ops {
 				if !op.Deep {
 					continue
 				}
 				if op.Ar == 1 {
-					jobs = append(jobs, job{op: op, A: new2})
+					jobs = append(jobs, job{op: op, A: nums2})
 					continue
 				}
-				jobs = append(jobs, job{op: op, A: rep2, B: core2}, job{op: op, A: core2, B: rep2}, job{op: op, A: rep2, B: rep1}, job{op: op, A: rep1, B: rep2})
+				jobs = append(jobs, job{op: op, A: rep2, B: P}, job{op: op, A: P, B: rep2}, job{op: op, A: rep2, B: rep1}, job{op: op, A: rep1, B: rep2})
 			}
 			_, ok3 := ex.runJobs(jobs, 3, false, "depth3")
-			ex.bounds["depth 3 (pruned)"] = fmt.Sprintf("unary deep operations on all %d depth-2 values; binary deep operations on %d class representatives of depth-2 values x (core leaves + depth-1 representatives), both positions; complete=%v", len(new2), len(rep2), ok3)
+			ex.bounds["depth 3 (pruned)"] = fmt.Sprintf("unary deep operations on all %d numeric depth-2 values; binary deep operations on %d class representatives of depth-2 values x (partner pool + depth-1 representatives), both positions; complete=%v", len(nums2), len(rep2), ok3)
 			complete = complete && ok3
 		}
 	}
